@@ -127,10 +127,6 @@ def parseSeg (s : String) : Option Seg :=
   | 'i' :: r => (String.ofList r).toNat?.map .idx
   | _ => none
 
-/-- the one parameter of the real configuration whose environment form does not work (finding F-C09) -/
-def authMethodsClass (name : Bytes) : Bool :=
-  name == strBytes "MTX_AUTHMETHODS" || name == strBytes "RTSP_AUTHMETHODS"
-
 structure St where
   names : List (Bytes × String) := []    -- variable name ↦ path, to detect two parameters sharing a name
 
@@ -147,15 +143,18 @@ def step (st : St) (op impl : String) : St × DrvOut :=
         | .err => "err"
         | .panic => "panic"
         | .nondet => "-"
-      let cur := fmt (loadEnv false fl env 12 (strBytes "MTX") ty v)
-      let fix := fmt (loadEnv true fl env 12 (strBytes "MTX") ty v)
-      -- correspondence of the generic loader model (current code, or the code with the proposed prefix-rule fix);
-      -- a panic of the loader is C10's business, here only the tie is checked
-      let model := if impl == cur || cur == "-" then cur else if impl == fix || fix == "-" then fix else cur
-      (st, { model })
+      -- correspondence of the generic loader model (`fx := true`: the prefix rule as of /repo 7bda13e); a panic of
+      -- the loader on these test types is reported here as well
+      let model := fmt (loadEnv true fl env 12 (strBytes "MTX") ty v)
+      (st, { model, spec := if impl == "panic" && model != "panic" then "FAIL env.Load panics" else "ok" })
     | _, _ => (st, { model := "bad-op" })
   | "order" :: _ =>
     (st, { model := "eq", spec := if impl == "eq" then "ok" else "FAIL the variable " ++ bytesStr (hexS (argOf toks "name")) ++ " does not override the file value through conf.Load: " ++ impl })
+  | "list" :: _ =>
+    (st, { model := "eq",
+           spec := if impl == "eq" then "ok"
+                   else "FAIL a list of " ++ argOf toks "n" ++ " items given through " ++ bytesStr (hexS (argOf toks "name")) ++
+                        "_<i>_… (mode " ++ argOf toks "mode" ++ ") differs from the same list written in the file: " ++ impl })
   | "leaf" :: _ =>
     let name := hexS (argOf toks "name")
     let pathS := argOf toks "path"
@@ -177,9 +176,8 @@ def step (st : St) (op impl : String) : St × DrvOut :=
             let spec :=
               if impl == "eq" || impl == "botherr" then "ok"
               else if impl.endsWith "panic" then "FAIL Load panics for " ++ bytesStr name ++ ": " ++ impl
-              else if authMethodsClass name then "KNOWN authmethods-prefix MTX_AUTHMETHODS cannot be used: the variable also matches the prefix rule of the parameter authMethod, which is then set from the empty string and rejected"
               else "FAIL file and environment disagree for " ++ bytesStr name ++ ": " ++ impl
-            (st', { model := if authMethodsClass name then "-" else "eq", spec })
+            (st', { model := "eq", spec })
   | _ => (st, { model := "bad-op" })
 
 def main (args : List String) : IO UInt32 := runDriver args ({} : St) step
